@@ -136,6 +136,10 @@ func verif_chclosed[T any](c chan T) bool { return false }
 func verif_wheld[T any](m *T) bool { return false }
 func verif_rheld[T any](m *T) bool { return false }
 func verif_held[T any](m *T) bool  { return false }
+// number of static calls (made by the function under contract itself, as far as
+// its body is executed) of the functions named by the contract option counts
+// with p as first argument; a lower bound of the real count (ghost.go)
+func verif_calls[T any](p *T) int { verif_ghostUsed = true; return 0 }
 func verif_notified(c any) bool      { return false }
 func verif_notified_open(c any) bool { return false }
 func verif_notif_code(c any) uint8   { return 0 }
@@ -157,3 +161,50 @@ var _ = verif_writes
 var _ = verif_uf_str
 var _ = verif_uf_u64
 `
+
+// ---------------------------------------------------------------------------
+// Ghost call counter (contract option `counts f,...`; predicate verif_calls(p)).
+//
+// "Every path through the function calls f on this object" is not a
+// postcondition over program state. With `counts f` each static call of a
+// function named f that the execution of the function under contract reaches
+// (directly or in an inlined callee) adds one to a ghost counter of the call's
+// first argument (a pointer: the receiver). The counter lives with the lock
+// state ("Gl|" keys): no call or loop havoc changes it, so calls made inside
+// callees that are applied by contract, or by loop iterations that are
+// summarised by an invariant, are NOT counted - verif_calls is a lower bound
+// of the real count, and only lower-bound clauses (verif_calls(p) - c0 >= 1)
+// are sound. The counter is a 64-bit vector with an arbitrary entry value: state
+// clauses as a difference (verif_calls(p) - c0 >= 1), which wrap-around keeps exact.
+// ---------------------------------------------------------------------------
+
+const callCountKey = "Gl|calls"
+
+func (fr *Frame) countCall(f *ssa.Function, args []Val, st *State) {
+	vc := fr.vc
+	if vc.rootContract == nil || len(vc.rootContract.Counts) == 0 || fr.pure || len(args) == 0 {
+		return
+	}
+	hit := false
+	for _, n := range vc.rootContract.Counts {
+		if n == f.Name() {
+			hit = true
+		}
+	}
+	if !hit {
+		return
+	}
+	if _, ok := args[0].T.Underlying().(*types.Pointer); !ok {
+		return
+	}
+	vc.regHeap(callCountKey, "(Array (_ BitVec 64) (_ BitVec 64))", nil)
+	cnt := vc.readCell(st, callCountKey, args[0].S)
+	vc.writeCell(st, callCountKey, args[0].S, app("bvadd", cnt, bvConst(1, 64)))
+}
+
+func (fr *Frame) callsPredicate(args []Val, st *State) *Val {
+	vc := fr.vc
+	vc.regHeap(callCountKey, "(Array (_ BitVec 64) (_ BitVec 64))", nil)
+	c := vc.readCell(st, callCountKey, args[0].S)
+	return &Val{T: types.Typ[types.Int], S: c}
+}
